@@ -98,6 +98,9 @@ func classifyErr(err error) string {
 	if errors.Is(err, io.ErrUnexpectedEOF) {
 		return "UnexpectedEOF"
 	}
+	if strings.Contains(err.Error(), "varint overflows a 64-bit integer") {
+		return "Overflow"
+	}
 	if errors.Is(err, io.EOF) {
 		return "EOF"
 	}
